@@ -31,7 +31,7 @@ class WakeC(tops.Component):
 
     def gen_args(self, tier, seed):
         if tier == "quick":
-            return [["-seed", str(seed), "-cases", "250", "-exhaustive", "0"], ["-seed", str(seed), "-cases", "0", "-exhaustive", "800"]]
+            return [["-seed", str(seed), "-cases", "250", "-exhaustive", "0"], ["-seed", str(seed), "-cases", "0", "-exhaustive", "2400"]]
         return [["-seed", str(seed), "-cases", "4000", "-exhaustive", "0"], ["-seed", str(seed), "-cases", "0", "-exhaustive", "30000"]]
 
     def nontrivial(self, cr):
